@@ -25,6 +25,8 @@ def suites : List (String × (String → String → CaseResult)) :=
   [("macro", MacroSuite.runCase)] ++
   [("saveload", SaveSuite.runCase)] ++
   [("session", SessionSuite.runCase)] ++
+  [("bounded", BoundedSuite.runCase)] ++
+  [("chunks", ChunkSuite.runCase)] ++
   []
 
 structure DAcc where
